@@ -1,3 +1,5 @@
 import FinProtoc.Props.C02
 #print axioms FinProtoc.Props.dec_sound
+#print axioms FinProtoc.Props.spec_roundtrip_plain
+#print axioms FinProtoc.Props.emitted_roundtrip_plain
 #print axioms FinProtoc.Props.dec_agree
